@@ -19,6 +19,7 @@ warnings.simplefilter("ignore")
 from traits.api import (Any, Dict, HasTraits, Int, List, Set, Tuple, Union, Undefined,  # noqa: E402
                         Uninitialized)
 from traits.trait_notifiers import StaticTraitChangeNotifyWrapper  # noqa: E402
+from traits.trait_list_object import TraitListObject  # noqa: E402
 
 KINDS = ["KConst", "KListCopy", "KDictCopy", "KTraitList", "KTraitDict", "KTraitSet", "KFactory", "KMethod",
          "KTuple", "KUnion", "KEvent"]
@@ -28,7 +29,7 @@ MOD = 2305843009213693951
 def digest(l):
     h = 0
     for c in l:
-        h = (h * 1000003 + c + 7) % MOD
+        h = (h * 1000003 + c + 7) & MOD
     return h
 
 
@@ -133,7 +134,8 @@ class World:
         if type(v) is int:
             return {"shape": 0, "parts": [[0, [v]]]}
         if isinstance(v, list):
-            return {"shape": 1, "parts": [[self.oid(v), self.content(v)]]}
+            shape = 5 if isinstance(v, TraitListObject) else 1
+            return {"shape": shape, "parts": [[self.oid(v), self.content(v)]]}
         if isinstance(v, dict):
             return {"shape": 2, "parts": [[self.oid(v), self.content(v)]]}
         if isinstance(v, (set, frozenset)):
